@@ -13,6 +13,8 @@ structure St where
   tree : Option ObjectTree := none
   /-- lengths of the tables parsed into the current case's tree so far -/
   tlens : Array Nat := #[]
+  /-- size of the implementation's pool before the table being observed (default scopes at the start of a case) -/
+  implPool : Nat := 0
   rowLimit : Nat := 160
 
 def sizeBucket (n : Nat) : String :=
@@ -31,11 +33,30 @@ def modelObs (st : St) (handle : Nat) (payload : Array UInt8) : String × Option
     | .error .panic => ("panic", none)
     | .error .outOfFuel => ("outOfFuel", none)
 
+/-- the clause a non-{ok, err} outcome of the implementation violates — decided on the implementation's
+observation alone (a recovered Go panic is `never-panics` whatever the model does) -/
+def crashClause (kind : String) : String × String :=
+  if kind = "panic" ∨ kind = "fatal" ∨ kind = "flaky-fatal" then ("never-panics", kind)
+  else if kind = "overflow" ∨ kind = "flaky-overflow" then ("never-overflows-stack", kind)
+  else if kind = "timeout" ∨ kind = "flaky-timeout" then ("terminates", kind)
+  else if kind = "memory" ∨ kind = "flaky-memory" then ("work-bounded", kind)
+  else ("outcome", kind)
+
+/-- objects one table of `len` payload bytes may allocate over the WHOLE parse (all passes).  `first_pass_total`
+proves the budget 16 per byte for the first pass; measured on the unchanged tree the whole parse never allocates
+more than 2 per byte (statistic `objs_per_byte_le_*`), so the oracle enforces 4 per byte plus a constant. -/
+def workBound (len : Nat) : Nat := 4 * len + 16
+
 def oracle (st : St) (curLen : Nat) (obs : List String) : List (String × String) :=
   match obs with
   | outcome :: pr :: pool :: free :: orph :: bad :: wf :: _hash :: rows =>
     let fails : List (String × String) :=
-      (if outcome ≠ "ok" ∧ outcome ≠ "err" then [("outcome", outcome)] else []) ++
+      (if outcome ≠ "ok" ∧ outcome ≠ "err" then [crashClause outcome] else []) ++
+      -- work proportional to the input: the objects this table allocated (implementation's pool growth)
+      (let grown := nat! pool - st.implPool
+       if outcome = "ok" ∨ outcome = "err" then
+         if grown > workBound (curLen - Gen.C12.headerLen) then [("work-bounded", s!"objects-{grown}-for-{curLen - Gen.C12.headerLen}-bytes")] else []
+       else []) ++
       (if bad ≠ "0" then [("slices-in-table", "stored-slice-outside-table")] else []) ++
       (if wf ≠ "ok" then [("tree-wf", wf)] else []) ++
       (if pr ≠ "ok" ∧ pr ≠ "skip" then [("print", pr)] else [])
@@ -50,7 +71,7 @@ def oracle (st : St) (curLen : Nat) (obs : List String) : List (String × String
       (if wf' ≠ wf then [("tree-wf", s!"oracle-twin-disagrees-{wf'}")] else []) ++
       (if toString (orphans t) ≠ orph then [("tree-wf", "oracle-twin-disagrees-orphans")] else [])
     else fails
-  | [kind] => [("outcome", kind)]
+  | [kind] => [crashClause kind]
   | _ => [("outcome", "bad-line")]
 
 def processLine (st : St) (line : String) : IO St := do
@@ -77,15 +98,24 @@ def processLine (st : St) (line : String) : IO St := do
       | some t =>
         let d := mkTable payload
         for hyp in shapeAudit d (fuelFor d t) handle { tree := t } do
-          IO.println s!"PROPFAIL case={st.caseId} clause=shape-hypothesis feature={hyp} op={(opS.take 400).toString}"
-          st := { st with stats := st.stats.bump "propfail" }
+          if hyp = "deferred-block:methods-have-flags" then
+            -- not yet a failure: the per-block theorem asks for the flags of EVERY live `Method`; a table rejected
+            -- earlier may have left an unnamed, unreachable `Method` without flags behind (counted, see C12 notes)
+            st := { st with stats := st.stats.bump "block_hyp_methods_have_flags_not_met" }
+          else
+            IO.println s!"PROPFAIL case={st.caseId} clause=shape-hypothesis feature={hyp} op={(opS.take 400).toString}"
+            st := { st with stats := st.stats.bump "propfail" }
       | none => pure ()
       for (cl, feat) in oracle st curLen obs do
         IO.println s!"PROPFAIL case={st.caseId} clause={cl} feature={feat} op={(opS.take 400).toString} impl={(obsS.take 200).toString}"
         st := { st with stats := st.stats.bump "propfail" }
       match obs with
       | _ :: _ :: pool :: _ :: orph :: _ =>
-        st := { st with stats := st.stats.bump s!"pool_{sizeBucket (nat! pool)}" |>.bump "orphans" (nat! orph) }
+        let grown := nat! pool - st.implPool
+        let len := payload.size
+        let ratio := if grown ≤ len then 1 else if grown ≤ 2 * len then 2 else if grown ≤ 4 * len then 4 else if grown ≤ 8 * len then 8 else 16
+        let stats := st.stats.bump s!"pool_{sizeBucket (nat! pool)}" |>.bump "orphans" (nat! orph) |>.bump s!"objs_per_byte_le_{ratio}"
+        st := { st with stats := stats, implPool := nat! pool }
       | _ => pure ()
       return { st with tree := t', tlens := st.tlens.push curLen }
     | _ => IO.println s!"MISMATCH case={st.caseId} unparsable op: {opS.take 100}"; return st
@@ -93,7 +123,7 @@ def processLine (st : St) (line : String) : IO St := do
     match toks line with
     | ["case", id] =>
       let t := match defaultTree 0 with | .ok t => some t | .error _ => none
-      return { st with caseId := id, tree := t, tlens := #[], stats := st.stats.bump "cases" }
+      return { st with caseId := id, tree := t, tlens := #[], implPool := (t.map (·.pool.size)).getD 0, stats := st.stats.bump "cases" }
     | ["base", k, hex] =>
       let k := nat! k
       let bs := if k = st.bases.size then st.bases.push (hexArr hex) else st.bases
